@@ -104,7 +104,43 @@ def visitor_classes():
 
         def visit_intermediate_node_out(self, node):
             pass
+    class OneChild(ForestVisitor):            # every callback hands back ONE node itself (not an iterable)
+        pick = 0
+
+        def visit_symbol_node_in(self, node):
+            cs = node.children
+            return cs[self.pick if self.pick == 0 else -1] if cs else None
+
+        def visit_packed_node_in(self, node):
+            cs = node.children
+            return cs[self.pick if self.pick == 0 else -1] if cs else None
+
+    class LastChild(OneChild):
+        pick = 1
+
+    class MixedReturn(ForestVisitor):         # symbol nodes: iterable of all children; packed nodes: one node
+        def visit_symbol_node_in(self, node):
+            return node.children
+
+        def visit_packed_node_in(self, node):
+            return node.left if node.left is not None else node.right
+
+    class MixedReturn2(ForestVisitor):        # packed: the right child itself; intermediate nodes: one node too
+        def visit_symbol_node_in(self, node):
+            return iter(node.children)
+
+        def visit_intermediate_node_in(self, node):
+            cs = node.children
+            return cs[-1] if cs else None
+
+        def visit_packed_node_in(self, node):
+            return node.right if node.right is not None else node.left
     return [
+        ('ForestVisitor/one-first', OneChild, (), {}, 'visit'),
+        ('ForestVisitor/one-last/single', LastChild, (), {'single_visit': True}, 'visit'),
+        ('ForestVisitor/mixed', MixedReturn, (), {}, 'visit'),
+        ('ForestVisitor/mixed/single', MixedReturn, (), {'single_visit': True}, 'visit'),
+        ('ForestVisitor/mixed2', MixedReturn2, (), {}, 'visit'),
         ('ForestVisitor/multi', FullWalk, (), {}, 'visit'),
         ('ForestVisitor/single', FullWalk, (), {'single_visit': True}, 'visit'),
         ('ForestVisitor/inter', FullWalkInter, (), {}, 'visit'),
@@ -125,11 +161,12 @@ def walk_cases(ctx, root, p, w, out_cases, out_meta, cyclic, nontrivial, pick=No
     classes = visitor_classes()
     if pick is not None:
         # two of the pure walkers' modes always, plus a sample of the transformer classes
-        classes = [classes[0], classes[1]] + pick.sample(classes[2:], 2)
+        classes = pick.sample(classes[:5], 2) + [classes[5], classes[6]] + pick.sample(classes[7:], 2)
     if fc.multi_visit_size(nodes) is None:
         # a multi-visit walk of this forest terminates (C20_visit_terminates) but enters exponentially many paths:
         # a timeout would not mean non-termination, so only the single-visit classes are run here
-        classes = [c for c in classes if c[0] in ('ForestVisitor/single', 'ForestSumVisitor')]
+        classes = [c for c in classes if c[0] in ('ForestVisitor/single', 'ForestSumVisitor', 'ForestVisitor/one-first',
+                                                   'ForestVisitor/one-last/single', 'ForestVisitor/mixed/single')]
         ctx.count('walk-multi-visit-skipped-exponential', nontrivial=False)
     for name, cls, args, kw, method in classes:
         if name == 'ForestToParseTree/resolve':
@@ -164,7 +201,7 @@ def walk_cases(ctx, root, p, w, out_cases, out_meta, cyclic, nontrivial, pick=No
             ctx.count('walk-too-long-for-model', nontrivial=False)
             continue
         out_cases.append('(%s, %s, %s, %s)' % (g, 'true' if r['single'] else 'false',
-                                              L([fc.LN(l) for l in r['rets']]),
+                                              L(['(%s, %s)' % ('true' if one else 'false', fc.LN(l)) for one, l in r['rets']]),
                                               L([fc.coq_event(e) for e in r['events']])))
         out_meta.append(dict(w, visitor=name))
         # results of tree-building transformers on cyclic forests: every tree must be a derivation
